@@ -242,7 +242,7 @@ DEEP_SLOTS = [
     # a quantifier inside an index, a function argument, a set element, a range bound of `in`
     'xs[int((exists a in ys: @a > 0))] > 0',
     'abs(int((forall a in @b.xs: @a > 0))) > 0',
-    'x in {int((exists a in ys: @a.g > @a.f)), 2}',
+    'x in {int((exists a in ys: @a > @B.f)), 2}',
     'x in [0 to int((forall a in ys: (exists i in zs: @i > @a)))]',
     # markers below several accessors / inside nested indices
     'm.n[xs[@a.k]].f > 0', '@a.m.n[@b.k[@a.j]].f = @a.g', 'xs[ys[zs[@a]]] > 0', 'xs[-(@a.k + len({@b.j, 1}))] > 0',
